@@ -1227,6 +1227,9 @@ class Machine:
                 return v
             if kind == 'PtrToPtr':
                 return v
+            if kind == 'Transmute' and isinstance(v, BoxObj) and ty.startswith(('*const ', '*mut ', '&')):
+                # Box<T> internals (Unique<T>/NonNull<T>) reinterpreted as a raw pointer to the boxed value
+                return Ptr(v.cell, ())
             if kind == 'Transmute':
                 # same-layout reference transmutes (e.g. &[u8] <-> &str)
                 if isinstance(v, Ptr):
